@@ -46,6 +46,13 @@ def gen_case(D):
          'cancel': None, 'salt': D.int(0, 20)}
     if D.bool(0.2):
         c['cancel'] = {'at': D.int(2, 40), 'sel': D.int(0, 3)}
+    if D.bool(0.2):
+        # namespace fallback: the root lives in a namespace, intermediate
+        # workflows exist only in the default namespace, the leaf in both
+        c['fallback'] = True
+        c['namespace'] = 'ns1'
+        c['cancel'] = None
+        c['with_items'] = D.choice([0, 0, 2])
     return c
 
 
@@ -120,10 +127,58 @@ def render(case):
     return text, shadow, '%s.%s' % (wb, nm['main'])
 
 
+FALLBACK_DEFAULT = """
+version: '2.0'
+mid_g:
+  input: [a]
+  output: {out: <% $.r.out %>, envv: <% $.r.envv %>}
+  tasks:
+    mt:
+      workflow: leaf_g
+      input: {a: <% $.a %>}
+      publish: {r: <% task().result %>}
+leaf_g:
+  input: [a]
+  output: {out: from_default, envv: from_default}
+  tasks:
+    lt:
+      action: std.noop
+"""
+FALLBACK_NS = """
+version: '2.0'
+main_g:
+  input: [{a: 1}, {items: %s}]
+  tasks:
+    call:
+      workflow: mid_g
+      input: {a: <%% $.a %%>}%s
+      publish: {res: <%% task().result %%>}
+      on-success: [after]
+      on-error: [handler]
+    after:
+      action: std.noop
+    handler:
+      action: std.noop
+leaf_g:
+  input: [a]
+  output: {out: from_ns, envv: from_ns}
+  tasks:
+    lt:
+      action: std.noop
+"""
+
+
 def check_case(case, stats=None):
     from mv import sim, enginerun
     from mistral.services import workbooks as wb_service
-    text, shadow, start_name = render(case)
+    if case.get('fallback'):
+        wi = case['with_items']
+        text = FALLBACK_NS % (list(range(wi)),
+                              '\n      with-items: a in <% $.items %>'
+                              if wi else '')
+        shadow, start_name = FALLBACK_DEFAULT, 'main_g'
+    else:
+        text, shadow, start_name = render(case)
     sim.reset(salt=case.get('salt', 0))
     sim.CONF.set_override('start_subworkflows_via_rpc', bool(case['via_rpc']),
                           group='engine')
@@ -152,9 +207,13 @@ def _run(case, stats, text, shadow, start_name):
 
     sim.W.outcome = outcome
     ns = case['namespace']
-    wb_service.create_workbook_v2(text, namespace=ns)
-    if shadow:
-        sim.create_workflows(shadow, namespace=ns)
+    if case.get('fallback'):
+        sim.create_workflows(text, namespace=ns)
+        sim.create_workflows(shadow, namespace='')
+    else:
+        wb_service.create_workbook_v2(text, namespace=ns)
+        if shadow:
+            sim.create_workflows(shadow, namespace=ns)
     params = {}
     if case['env']:
         params['env'] = {'k': 'envval'}
@@ -218,7 +277,8 @@ def _run(case, stats, text, shadow, start_name):
                              'detail': {'wf': k['name'],
                                         'ns': (k['params'] or {}).get(
                                             'namespace')}})
-            if case['extra'] and 'extra_key' not in (k['params'] or {}) \
+            if case['extra'] and not case.get('fallback') and \
+                    'extra_key' not in (k['params'] or {}) \
                     and k['name'].split('.')[-1] != 'deep_none':
                 # only calls that pass the extra key
                 if t['name'] in ('call', 'mt'):
@@ -253,6 +313,13 @@ def _run(case, stats, text, shadow, start_name):
                              'detail': {'task_state': t['state'],
                                         'children': [k['state']
                                                      for k in kids]}})
+    if case.get('fallback') and root['state'] == 'SUCCESS':
+        # the leaf must be the caller-namespace definition
+        for w in snap['wf'].values():
+            if w['name'] == 'leaf_g' and w['state'] == 'SUCCESS' and \
+                    (w['output'] or {}).get('out') != 'from_ns':
+                viol.append({'kind': 'namespace-fallback-lost-caller-'
+                             'namespace', 'detail': {'output': w['output']}})
     # the shadow workflow must not have been used for short-name calls
     for w in snap['wf'].values():
         if (w['output'] or {}).get('out') == 'SHADOW':
@@ -261,7 +328,7 @@ def _run(case, stats, text, shadow, start_name):
                 viol.append({'kind': 'global-workflow-shadowed-workbook-one',
                              'detail': {'wf': w['name']}})
     # environment of the root visible in every leaf
-    if case['env']:
+    if case['env'] and not case.get('fallback'):
         for aid, info in sim.W.actions.items():
             if info.get('task') == 'lt' and \
                     (info.get('input') or {}).get('output') != 'envval':
@@ -321,6 +388,8 @@ def _run(case, stats, text, shadow, start_name):
             tg.append('operator_cancel')
         if case['global_shadow']:
             tg.append('global_shadow')
+        if case.get('fallback'):
+            tg.append('namespace_fallback')
         nontriv = (case['depth'] >= 2 or bool(case['with_items'])) and \
             sched.nonfifo >= 1
         stats.case(runner.fp([case, sched.taken]), nontriv, tg,
